@@ -2,6 +2,7 @@ import Drivers.Common
 import Drivers.OracleD
 import Drivers.GovD
 import Drivers.BankVmD
+import Drivers.ShieldD
 /-
   Chain driver: reads the trace of the real application (one JSON object per line),
   runs the model on every operation from the *observed* pre-state, compares the
@@ -31,6 +32,10 @@ structure DS where
   hasVest : Bool := false
   cvm : Cvm.State := default
   hasCvm : Bool := false
+  shield : Shield.State := default
+  hasShield : Bool := false
+  shieldOutside : Bool := false      -- coins of a denomination the shield model does not cover were seen
+  claimParams : ShieldD.ClaimParams := default
   -- C14 ghost ledger (from observations only)
   dep : List (Addr × Coins) := []
   ret : List (Addr × Coins) := []
@@ -67,9 +72,18 @@ def loadObs (ds : DS) (st : Json) : DS := Id.run do
     let (vs, accts) := BankVmD.parseVesting (J.get st "vesting")
     ds := { ds with vest := vs, accounts := accts, hasVest := true }
   if J.has st "cvm" then ds := { ds with cvm := BankVmD.parseCvm (J.get st "cvm"), hasCvm := true }
+  if J.has st "shield" then
+    let j := J.get st "shield"
+    ds := { ds with shield := ShieldD.parseState j, hasShield := true, claimParams := ShieldD.parseClaimParams j,
+                    shieldOutside := ds.shieldOutside || ShieldD.outsideModel j }
   return ds
 
 def oracleEnv (ds : DS) : Oracle.Env := { h := ds.h, t := ds.t, bond := "uctk", modAddr := ds.sys.modAddr "oracle" }
+/-- the shield environment of a step: the bonded stake the staking hooks computed is read from the observed post-state -/
+def shieldEnv (ds : DS) : Shield.Env :=
+  let post := ds.shield
+  { t := ds.t, bond := "uctk", modAddr := ds.sys.modAddr "shield", bondedPool := ds.sys.modAddr "bonded_tokens_pool",
+    bondedAfter := fun a => (Shield.findProvider post a).map (·.bonded) }
 def govEnv (ds : DS) (stake : Gov.StakeView) : Gov.Env := { t := ds.t, bond := "uctk", modAddr := ds.sys.modAddr "gov", stake := stake }
 
 /-- the part of the world the models cover -/
@@ -81,10 +95,13 @@ structure MW where
   v : Vesting.Accounts := []
   k : Cvm.State := default
   accts : List Addr := []
+  sh : Shield.State := default
+  skipLedger : Bool := false       -- the step moves coins through SDK modules that are not modelled (staking, distribution)
 
 def proposalOfMsg (m : Json) : Gov.Proposal :=
   { id := 0, kind := J.strOf m "kind", cuCertifier := J.strOf m "certifier", cuAlias := J.strOf m "alias", cuAdd := J.boolOf m "add",
-    cuProposer := J.strOf m "contentProposer", status := 0, isCouncil := false, proposer := "", totalDeposit := [], submitTime := 0,
+    cuProposer := J.strOf m "contentProposer", clPool := (J.intOf m "pool").toNat, clPurchase := (J.intOf m "purchase").toNat,
+    clLoss := (if J.has m "loss" then [("uctk", J.intOf m "loss")] else []), status := 0, isCouncil := false, proposer := "", totalDeposit := [], submitTime := 0,
     depositEnd := 0, votingStart := 0, votingEnd := 0, tally := ⟨0, 0, 0, 0⟩ }
 
 /-- apply one message of the trace to the model; `none` = message kind not modelled -/
@@ -108,9 +125,29 @@ def applyMsg (ds : DS) (stake : Gov.StakeView) (w : MW) (m : Json) : Option (Exc
     let k := J.strOf m "kind"
     if k == "text" || k == "certifierUpdate" || k == "upgrade" then
       onGov (Gov.submit ge gw (J.strOf m "proposer") (proposalOfMsg m) (J.coinsOf m "deposit"))
+    else if k == "claim" && ds.hasShield then
+      let se := shieldEnv ds
+      let holder := J.strOf m "contentProposer"
+      let pool := (J.intOf m "pool").toNat; let purchase := (J.intOf m "purchase").toNat; let loss := J.intOf m "loss"
+      let deposit := J.coinsOf m "deposit"
+      let council := Gov.isCouncil ge w.c (J.strOf m "proposer")
+      -- msg_server.go SubmitProposal: initial deposit, claim admission, handler dry run, proposal + deposit, lock
+      if Gen.Gov.submitRefused (Coins.amountOf deposit "uctk") (Coins.amountOf w.g.params.minInitial "uctk") council then some (.error ⟨"gov:insufficient-initial-deposit"⟩)
+      else match ShieldD.claimAdmissible ds.claimParams w.sh ds.t holder pool purchase loss (Coins.amountOf deposit "uctk") with
+      | some x => some (.error ⟨"claim:" ++ x⟩)
+      | none =>
+        match Shield.createReimbursement { se with bondedAfter := fun _ => none } w.l w.sh w.g.nextId loss holder with
+        | .error x => some (.error ⟨"claim-dry-run:" ++ x.kind⟩)
+        | .ok _ =>
+          match Gov.submit ge gw (J.strOf m "proposer") (proposalOfMsg m) deposit with
+          | .error x => some (.error x)
+          | .ok x =>
+            match Shield.secureCollaterals se w.sh pool holder purchase loss (2 * w.g.params.votingPeriod) with
+            | .error y => some (.error y)
+            | .ok sh' => some (.ok { w with l := x.l, g := x.g, c := x.c, sh := sh' })
     else none
   | "gov.deposit" =>
-    if (w.g.proposals.find? (·.id == (J.intOf m "pid").toNat)).any (·.kind == "claim") then none
+    if (w.g.proposals.find? (·.id == (J.intOf m "pid").toNat)).any (·.kind == "claim") && !ds.hasShield then none
     else onGov (Gov.addDeposit ge gw (J.intOf m "pid").toNat (J.strOf m "depositor") (J.coinsOf m "amt"))
   | "gov.vote" => onGov (Gov.vote gw (J.intOf m "pid").toNat (J.strOf m "voter") (J.intOf m "option").toNat)
   | "cert.issue" => some ((Cert.issue w.c (J.strOf m "certifier") (J.strOf m "kind") (J.strOf m "content")).map (fun c' => { w with c := c' }))
@@ -144,6 +181,30 @@ def applyMsg (ds : DS) (stake : Gov.StakeView) (w : MW) (m : Json) : Option (Exc
     let target := if data.length ≥ 64 then ((w0.drop 24).toString) else ""
     some ((Cvm.call "uctk" w.l w.v w.k (J.strOf m "caller") (J.strOf m "callee") (J.intOf m "value") w0 (isZero || data == "") target (data != "")).map
       (fun (l, k) => { w with l := l, k := k }))
+  | "shield.deposit" => some ((Shield.deposit (shieldEnv ds) w.sh (J.strOf m "from") [("uctk", J.intOf m "amt")]).map (fun s => { w with sh := s }))
+  | "shield.withdraw" => some ((Shield.withdraw (shieldEnv ds) w.sh (J.strOf m "from") [("uctk", J.intOf m "amt")]).map (fun s => { w with sh := s }))
+  | "shield.purchase" =>
+    some ((Shield.purchase (shieldEnv ds) w.l w.sh (J.intOf m "pool").toNat [("uctk", J.intOf m "amt")] (J.strOf m "from") false).map (fun (l, s) => { w with l := l, sh := s }))
+  | "shield.stakeForShield" =>
+    some ((Shield.purchase (shieldEnv ds) w.l w.sh (J.intOf m "pool").toNat [("uctk", J.intOf m "amt")] (J.strOf m "from") true).map (fun (l, s) => { w with l := l, sh := s }))
+  | "shield.unstake" => some ((Shield.unstake (shieldEnv ds) w.sh (J.intOf m "pool").toNat (J.strOf m "from") [("uctk", J.intOf m "amt")]).map (fun s => { w with sh := s }))
+  | "shield.withdrawRewards" => some ((Shield.withdrawRewards (shieldEnv ds) w.l w.sh (J.strOf m "from")).map (fun (l, s) => { w with l := l, sh := s }))
+  | "shield.withdrawReimbursement" =>
+    some ((Shield.withdrawReimbursement (shieldEnv ds) w.l w.sh (J.intOf m "pid").toNat (J.strOf m "from")).map (fun (l, s) => { w with l := l, sh := s }))
+  | "shield.createPool" =>
+    some ((Shield.createPool (shieldEnv ds) w.l w.sh (J.strOf m "from") [("uctk", J.intOf m "shield")] [("uctk", J.intOf m "fees")] (J.strOf m "sponsor")
+            (J.strOf m "sponsorAddr") (J.intOf m "limit")).map (fun (l, s) => { w with l := l, sh := s }))
+  | "shield.updatePool" =>
+    some ((Shield.updatePool (shieldEnv ds) w.l w.sh (J.strOf m "from") (J.intOf m "pool").toNat [("uctk", J.intOf m "shield")] [("uctk", J.intOf m "fees")]
+            (J.intOf m "limit")).map (fun (l, s) => { w with l := l, sh := s }))
+  | "shield.pausePool" => some ((Shield.pausePool w.sh (J.strOf m "from") (J.intOf m "pool").toNat false).map (fun s => { w with sh := s }))
+  | "shield.resumePool" => some ((Shield.pausePool w.sh (J.strOf m "from") (J.intOf m "pool").toNat true).map (fun s => { w with sh := s }))
+  | "shield.updateSponsor" =>
+    some ((Shield.updateSponsor w.sh (J.strOf m "from") (J.intOf m "pool").toNat (J.strOf m "sponsor") (J.strOf m "sponsorAddr")).map (fun s => { w with sh := s }))
+  | "staking.delegate" | "staking.undelegate" =>
+    -- the staking module itself is not modelled; its hooks into shield are (the coins move through staking and distribution)
+    if ds.hasShield then some ((Shield.stakingChanged (shieldEnv ds) w.sh (J.strOf m "del")).map (fun s => { w with sh := s, skipLedger := true }))
+    else none
   | _ => none
 
 def applyMsgs (ds : DS) (stake : Gov.StakeView) : List Json → MW → Option (Except Err MW)
@@ -163,9 +224,14 @@ def propOfKind (kind : String) : String :=
   if kind.startsWith "oracle.createTask" || kind.startsWith "oracle.respond" || kind.startsWith "oracle.deleteTask" then "C15"
   else if kind.startsWith "oracle." then "C14"
   else if kind.startsWith "gov.deposit" then "C11"
-  else if kind.startsWith "gov.submit" then "C11,C12"
+  else if kind.startsWith "gov.submit" then "C11,C12,C05"
   else if kind.startsWith "gov." then "C12"
   else if kind.startsWith "cert." then "C13"
+  else if kind.startsWith "shield.deposit" || kind.startsWith "shield.purchase" || kind.startsWith "shield.stake" || kind.startsWith "staking." then "C06"
+  else if kind.startsWith "shield.withdrawReimbursement" then "C04"
+  else if kind.startsWith "shield.withdrawRewards" || kind.startsWith "shield.unstake" then "C02"
+  else if kind.startsWith "shield.withdraw" then "C07"
+  else if kind.startsWith "shield." then "C06,C03"
   else if kind.startsWith "cvm." || kind.startsWith "failed:cvm." then "C18"
   else if kind.startsWith "bank.lockedSend" || kind.startsWith "auth." then "C19"
   else "C01"
@@ -188,8 +254,12 @@ def compareWorld (ds : DS) (tag : String) (w : MW) (skipAccts : List Addr) : IO 
   if ds.hasCvm then
     for x in BankVmD.diffFacts (BankVmD.cvmFacts w.k) (BankVmD.cvmFacts ds.cvm) do
       ds ← finding ds "diverge" "C18" s!"state:{tag}" x
-  for x in balDiffs w.l ds.ledger skipAccts do
-    ds ← finding ds "diverge" (propOfKind tag ++ ",C01") s!"balance:{tag}" x
+  if ds.hasShield && !ds.shieldOutside then
+    for x in ShieldD.diffFacts' (ShieldD.facts w.sh) (ShieldD.facts ds.shield) do
+      ds ← finding ds "diverge" (ShieldD.propsOfFact x) s!"state:{tag}" x
+  if !w.skipLedger then
+    for x in balDiffs w.l ds.ledger skipAccts do
+      ds ← finding ds "diverge" (propOfKind tag ++ ",C01") s!"balance:{tag}" x
   return ds
 
 def noteStatuses (ds : DS) : DS :=
@@ -227,6 +297,14 @@ def runMonitors (ds : DS) (afterBegin boundary : Bool) : IO DS := do
     if boundary then
       for x in GovD.monNoOrphanDeposit g do ds ← finding ds "monitor" "C11" "no_deposit_after_end" x
     for x in GovD.monDepositSum g do ds ← finding ds "monitor" "C11" "deposit_records_sum" x
+  if ds.hasShield && boundary then
+    ds := stat ds "mon.shield.boundary"
+    let mb := ds.ledger.balOf (ds.sys.modAddr "shield") "uctk"
+    if !ds.shieldOutside then
+      if !Shield.fundInvB mb ds.shield then
+        let s := ds.shield
+        ds ← finding ds "monitor" "C02" "module_exactly_funded" s!"module balance {mb}uctk; owes remaining {s.remaining.raw}e-18 + rewards {Shield.sumRewards s}e-18 + block fees {s.blockFees.raw}e-18 + stakes {Shield.sumStakes s} + reimbursements {Shield.sumReimbs s}"
+    for x in Shield.booksViolations ds.shield do ds ← finding ds "monitor" "C03" "books_consistent" x
   -- C01: balances add up to the recorded supply, in every denomination
   ds := stat ds "mon.c01.ledger"
   if !ds.ledger.invB then
@@ -281,7 +359,7 @@ def transitionMonitors (ds : DS) (preG : Gov.State) (preC : Cert.State) (isEnd :
   return noteStatuses ds
 
 def handleTx (ds : DS) (j : Json) : IO DS := do
-  let pre : MW := { l := ds.ledger, o := ds.oracle, g := ds.gov, c := ds.cert, v := ds.vest, k := ds.cvm, accts := ds.accounts }
+  let pre : MW := { l := ds.ledger, o := ds.oracle, g := ds.gov, c := ds.cert, v := ds.vest, k := ds.cvm, accts := ds.accounts, sh := ds.shield }
   let preStake := ds.stake
   let signer := J.strOf j "signerAddr"
   let fee : Coins := if J.intOf j "fee" > 0 then [("uctk", J.intOf j "fee")] else []
@@ -294,7 +372,15 @@ def handleTx (ds : DS) (j : Json) : IO DS := do
   let lFee := pre.l.move signer (ds.sys.modAddr "fee_collector") fee
   let anteOk := match Vesting.canSpend pre.l pre.v signer fee with | .ok _ => true | .error _ => false
   let anteOk := anteOk && (!ds.hasVest || pre.accts.contains signer)
-  match (if anteOk then applyMsgs ds preStake msgs { pre with l := lFee } else some (.error ⟨"basic:ante"⟩)) with
+  let r0 : Option (Except Err MW) := if anteOk then applyMsgs ds preStake msgs { pre with l := lFee } else some (.error ⟨"basic:ante"⟩)
+  -- the staking module is not modelled: whether its own message is accepted is taken from the implementation
+  let r0 : Option (Except Err MW) := if kind.startsWith "staking." && code != 0 && r0.isSome then some (.error ⟨"staking:refused"⟩) else r0
+  -- the dry run of the claim handler at submission goes through the staking store; a panic there is a failed transaction the model cannot foresee
+  let r0 : Option (Except Err MW) := match r0 with
+    | some (.ok _) => if kind == "gov.submit" && code != 0 && ((J.strOf j "log").splitOn "panic").length > 1 && msgs.any (fun m => J.strOf m "kind" == "claim")
+                      then some (.error ⟨"claim-dry-run:staking"⟩) else r0
+    | _ => r0
+  match r0 with
   | none => ds := stat ds "tx.unmodelled"
   | some r =>
     ds := stat ds "tx.validated"
@@ -348,6 +434,49 @@ def handleTx (ds : DS) (j : Json) : IO DS := do
           ds ← finding ds "monitor" "C13" "fresh_id" s!"nextId {pre.c.nextId}->{ds.cert.nextId} new={fresh.map (·.id)}"
       | "cert.platform" =>
         if !Cert.isCertifier pre.c signer then ds ← finding ds "monitor" "C13" "only_certifiers_certify" s!"platform certified by non-certifier {signer}"
+      | "shield.purchase" | "shield.stakeForShield" =>
+        ds := stat ds "mon.c06.purchase"
+        for x in ShieldD.monPurchaseAccepted pre.sh ds.shield (J.intOf m "pool").toNat (J.intOf m "amt") true do ds ← finding ds "monitor" "C06" "purchase_within_limits" x
+      | "shield.createPool" =>
+        ds := stat ds "mon.c06.admin_purchase"
+        let pid := pre.sh.nextPool
+        for x in ShieldD.monPurchaseAccepted { pre.sh with pools := pre.sh.pools ++ [{ id := pid, shield := 0, limit := J.intOf m "limit", active := true, sponsor := "", sponsorAddr := "" }] }
+            ds.shield pid (J.intOf m "shield") false do ds ← finding ds "monitor" "C06" "purchase_within_limits" x
+      | "shield.updatePool" =>
+        if J.intOf m "shield" > 0 then
+          ds := stat ds "mon.c06.admin_purchase"
+          for x in ShieldD.monPurchaseAccepted pre.sh ds.shield (J.intOf m "pool").toNat (J.intOf m "shield") false do ds ← finding ds "monitor" "C06" "purchase_within_limits" x
+      | "shield.deposit" =>
+        ds := stat ds "mon.c06.deposit"
+        for x in ShieldD.monDepositAccepted ds.shield (J.strOf m "from") do ds ← finding ds "monitor" "C06" "collateral_backed_by_stake" x
+      | "staking.delegate" | "staking.undelegate" | "staking.redelegate" =>
+        ds := stat ds "mon.c06.staking_action"
+        for x in ShieldD.monBackedAfterStaking ds.shield (J.strOf m "del") do ds ← finding ds "monitor" "C06" "collateral_backed_by_stake" x
+      | "shield.withdraw" =>
+        ds := stat ds "mon.c07.request"
+        for x in ShieldD.monWithdrawAccepted pre.sh (J.strOf m "from") (J.intOf m "amt") do ds ← finding ds "monitor" "C07" "request_within_collateral" x
+      | "shield.withdrawReimbursement" =>
+        ds := stat ds "mon.c04.withdraw_reimbursement"
+        let a := J.strOf m "from"
+        match pre.sh.reimbs.find? (·.pid == (J.intOf m "pid").toNat) with
+        | none => ds ← finding ds "monitor" "C04" "reimbursement_withdrawn_once" s!"withdrawal accepted without a record: {m.compress}"
+        | some r =>
+          if r.beneficiary != a then ds ← finding ds "monitor" "C04" "reimbursement_beneficiary_only" s!"{a} withdrew the reimbursement of {r.beneficiary}"
+          if r.payoutTime > ds.t then ds ← finding ds "monitor" "C04" "reimbursement_after_payout_period" s!"withdrawn at {ds.t}, payout time {r.payoutTime}"
+          let got := Coins.amountOf (Coins.sub (ds.ledger.bal a) (pre.l.bal a)) "uctk" + (if a == signer then J.intOf j "fee" else 0)
+          if got != r.amount then ds ← finding ds "monitor" "C04" "reimbursement_exact" s!"beneficiary received {got}, approved {r.amount}"
+          if ds.shield.reimbs.any (·.pid == r.pid) then ds ← finding ds "monitor" "C04" "reimbursement_withdrawn_once" s!"record {r.pid} still there after withdrawal"
+      | "gov.submit" =>
+        if J.strOf m "kind" == "claim" && ds.hasShield then
+          ds := stat ds "mon.c05.claim_accepted"
+          let holder := J.strOf m "contentProposer"
+          let pool := (J.intOf m "pool").toNat; let purchase := (J.intOf m "purchase").toNat; let loss := J.intOf m "loss"
+          match ShieldD.claimAdmissible ds.claimParams pre.sh ds.t holder pool purchase loss (Coins.amountOf (J.coinsOf m "deposit") "uctk") with
+          | some x => ds ← finding ds "monitor" "C05" "claim_admission" s!"accepted although {x}: {m.compress}"
+          | none => pure ()
+          for x in ShieldD.monClaimLock pre.sh ds.shield holder pool purchase loss do ds ← finding ds "monitor" "C05" "claim_lock_exact" x
+          for p in pre.sh.providers do
+            for x in ShieldD.monOnlyPostponed pre.sh ds.shield p.addr do ds ← finding ds "monitor" "C07" "claims_only_postpone" x
       | "cert.revoke" =>
         ds := stat ds "mon.c13.revoke"
         if !Cert.isCertifier pre.c signer then ds ← finding ds "monitor" "C13" "only_certifiers_certify" s!"revoked by non-certifier {signer}"
@@ -358,6 +487,15 @@ def handleTx (ds : DS) (j : Json) : IO DS := do
     for x in pre.c.certs do
       if !(revoked.contains x.id) && !(ds.cert.certs.any (fun y => y == x)) then
         ds ← finding ds "monitor" "C13" "certificate_retrievable" s!"certificate {x.id} ({x.kind},{x.content},{x.certifier}) disappeared or changed"
+  if ds.hasShield then
+    for x in ShieldD.monNoReleaseInTx pre.sh ds.shield do ds ← finding ds "monitor" "C07" "released_only_by_queue" x
+    for x in ShieldD.monNewWithdraws pre.sh ds.shield ds.t do ds ← finding ds "monitor" "C07" "full_period_before_release" x
+    -- reimbursements appear only when a claim passes (in an end-blocker) and disappear only by the beneficiary's withdrawal
+    for r in ds.shield.reimbs do
+      if !(pre.sh.reimbs.any (· == r)) then ds ← finding ds "monitor" "C04" "reimbursement_only_for_passed_claim" s!"reimbursement {r.pid} of {r.amount} for {r.beneficiary} appeared in a transaction"
+    for r in pre.sh.reimbs do
+      if !(ds.shield.reimbs.any (· == r)) && !(code == 0 && msgs.any (fun m => J.strOf m "t" == "shield.withdrawReimbursement" && (J.intOf m "pid").toNat == r.pid)) then
+        ds ← finding ds "monitor" "C04" "reimbursement_withdrawn_once" s!"reimbursement {r.pid} disappeared without a withdrawal"
   if ds.hasVest then
     for x in BankVmD.monUnlockerImmutable pre.v ds.vest do ds ← finding ds "monitor" "C19" "unlocker_immutable" x
     for x in BankVmD.monMonotone pre.v ds.vest do ds ← finding ds "monitor" "C19" "vesting_monotone" x
@@ -395,7 +533,7 @@ def handleView (ds : DS) (j : Json) : IO DS := do
   return loadObs ds (J.get j "st")
 
 def handleBegin (ds : DS) (j : Json) : IO DS := do
-  let pre : MW := { l := ds.ledger, o := ds.oracle, g := ds.gov, c := ds.cert, v := ds.vest, k := ds.cvm, accts := ds.accounts }
+  let pre : MW := { l := ds.ledger, o := ds.oracle, g := ds.gov, c := ds.cert, v := ds.vest, k := ds.cvm, accts := ds.accounts, sh := ds.shield }
   let mut ds := { ds with h := J.intOf j "h", t := J.intOf j "t" }
   if J.has j "panic" then
     ds ← finding ds "panic" "C08" ("begin:" ++ J.strOf (J.get j "panic") "site") (J.strOf (J.get j "panic") "value")
@@ -412,12 +550,19 @@ def handleBegin (ds : DS) (j : Json) : IO DS := do
     match Oracle.beginBlock (oracleEnv ds) pre.l pre.o with
     | .error x => ds ← finding ds "diverge" "C14,C08" "begin:model-panics" x.kind
     | .ok (l', o') => w := { w with l := l', o := o' }
+  if ds.hasShield then
+    -- the mint module's share for shield: whatever arrived in the module account is recorded as block fees
+    let m := ds.sys.modAddr "shield"
+    let delta := ds.ledger.balOf m "uctk" - pre.l.balOf m "uctk"
+    if delta != 0 then ds := stat ds "sit.c02.block_rewards"
+    let (l', s') := Shield.fundBlockRewards (shieldEnv ds) w.l w.sh (ds.sys.modAddr "mint") delta
+    w := { w with l := l', sh := s' }
   ds ← compareWorld ds "begin" w ds.sys.systemAccts
   ds ← transitionMonitors ds pre.g pre.c false
   runMonitors ds true false
 
 def handleEnd (ds : DS) (j : Json) : IO DS := do
-  let pre : MW := { l := ds.ledger, o := ds.oracle, g := ds.gov, c := ds.cert, v := ds.vest, k := ds.cvm, accts := ds.accounts }
+  let pre : MW := { l := ds.ledger, o := ds.oracle, g := ds.gov, c := ds.cert, v := ds.vest, k := ds.cvm, accts := ds.accounts, sh := ds.shield }
   let mut ds := ds
   if J.has j "panic" then
     ds ← finding ds "panic" "C08" ("end:" ++ J.strOf (J.get j "panic") "site") (J.strOf (J.get j "panic") "value")
@@ -428,6 +573,98 @@ def handleEnd (ds : DS) (j : Json) : IO DS := do
   ds := stat ds "block.end"
   let mut w := pre
   let mut modelOk := true
+  let mut shieldOk := ds.hasShield
+  let mut paidTotal : Int := 0
+  if ds.hasShield then
+    -- end-blocker order: shield, staking, gov.  Staking's own end-blocker (unbondings returning coins) is not modelled.
+    w := { w with skipLedger := true }
+    let se := shieldEnv ds
+    match Shield.endBlock se w.sh with
+    | .error x =>
+      ds ← finding ds "diverge" "C08,C03" "end:shield-model-fails" x.kind
+      shieldOk := false
+    | .ok s1 =>
+      w := { w with sh := s1 }
+      if !(pre.sh.withdraws.filter (·.time ≤ ds.t)).isEmpty then ds := stat ds "sit.c07.withdrawals_completed"
+      if pre.sh.lists.any (fun l => l.entries.any (·.delTime < ds.t)) then ds := stat ds "sit.c06.purchases_expired"
+    -- claims that governance finalised in this block, in the order of the active-proposal queue
+    let ended := Gov.sortByKey (·.votingEnd) (pre.g.proposals.filter (fun p => p.kind == "claim" && GovD.liveStatus p.status &&
+      (ds.gov.proposals.find? (·.id == p.id)).any (fun q => !GovD.liveStatus q.status)))
+    let burned := Coins.amountOf (Coins.sub pre.l.supply ds.ledger.supply) "uctk"
+    let rejected := ended.filter (fun p => (ds.gov.proposals.find? (·.id == p.id)).any (·.status == 5))
+    if (ended.filter (fun p => (ds.gov.proposals.find? (·.id == p.id)).any (·.status == 4))).length > 1 then
+      -- two payouts in one block: the bonded stake the hooks saw after the first one is not observable
+      shieldOk := false
+      ds := stat ds "end.two_payouts_unmodelled"
+    for p in ended do
+      let q := (ds.gov.proposals.find? (·.id == p.id)).getD p
+      let loss := Coins.amountOf p.clLoss "uctk"
+      let dep := Coins.amountOf ((pre.g.deposits.filter (·.pid == p.id)).foldl (fun acc d => Coins.add acc d.amount) ([] : Coins)) "uctk"
+      let outcome : Option Shield.ClaimOutcome :=
+        if q.status == 4 then some .paid
+        else if q.status == 6 then some .failed
+        else if rejected.length == 1 && dep > 0 then (if burned == dep then some .vetoed else some .rejected)
+        else if dep > 0 && burned == 0 then some .rejected
+        else none
+      ds := stat ds s!"sit.c05.claim_ended.{q.status}"
+      match outcome with
+      | none => shieldOk := false; ds := stat ds "end.claim_outcome_ambiguous"
+      | some o =>
+        if o == .paid then paidTotal := paidTotal + loss
+        if o == .vetoed then ds := stat ds "sit.c05.claim_vetoed"
+        if shieldOk then
+          match Shield.claimEnds se w.l w.sh p.id p.clPool p.cuProposer p.cuProposer p.clPurchase loss o with
+          | .error x =>
+            ds ← finding ds "diverge" "C08,C04" "end:claim-model-fails" s!"proposal {p.id}: {x.kind}"
+            shieldOk := false
+          | .ok (l', s') => w := { w with l := l', sh := s' }
+        -- C04/C05, restated on the observations
+        let had := pre.sh.reimbs.any (·.pid == p.id)
+        match ds.shield.reimbs.find? (·.pid == p.id) with
+        | some r =>
+          if o != .paid && !had then ds ← finding ds "monitor" "C04" "reimbursement_only_for_passed_claim" s!"claim {p.id} ended with status {q.status} but a reimbursement of {r.amount} was recorded"
+          if o == .paid && (r.amount != loss || r.beneficiary != p.cuProposer || r.payoutTime != ds.t + pre.sh.params.payoutPeriod) then
+            ds ← finding ds "monitor" "C04" "reimbursement_exact" s!"claim {p.id}: loss {loss} for {p.cuProposer}; recorded {r.amount} for {r.beneficiary} payable at {r.payoutTime} (now {ds.t}, period {pre.sh.params.payoutPeriod})"
+        | none =>
+          if o == .paid then ds ← finding ds "monitor" "C04" "reimbursement_exact" s!"claim {p.id} passed but no reimbursement is recorded"
+    if !ended.isEmpty then
+      -- the locks of all ended claims are released
+      let released := ended.foldl (fun acc p => acc + Coins.amountOf p.clLoss "uctk") (0 : Int)
+      if pre.sh.totalClaimed - ds.shield.totalClaimed != released then
+        ds ← finding ds "monitor" "C05" "claim_lock_released" s!"locked for claims {pre.sh.totalClaimed}->{ds.shield.totalClaimed}; claims ended with losses {released}"
+    -- C04: reimbursements appear only for claims that passed now
+    for r in ds.shield.reimbs do
+      if !(pre.sh.reimbs.any (· == r)) && !(ended.any (fun p => p.id == r.pid && (ds.gov.proposals.find? (·.id == p.id)).any (·.status == 4))) then
+        ds ← finding ds "monitor" "C04" "reimbursement_only_for_passed_claim" s!"reimbursement {r.pid} of {r.amount} appeared without a claim passing"
+    for r in pre.sh.reimbs do
+      if !(ds.shield.reimbs.any (·.pid == r.pid)) then ds ← finding ds "monitor" "C04" "reimbursement_withdrawn_once" s!"reimbursement {r.pid} disappeared in an end-blocker"
+    -- C04: the coins of the payouts arrived
+    let m := ds.sys.modAddr "shield"
+    if ds.ledger.balOf m "uctk" - pre.l.balOf m "uctk" != paidTotal then
+      ds ← finding ds "monitor" "C04" "payout_arrives_in_module" s!"module balance {pre.l.balOf m "uctk"}->{ds.ledger.balOf m "uctk"}; claims paid {paidTotal}"
+    -- C05: a rejected claim's shield goes back to the purchase it was taken from (when that purchase still exists)
+    let restorable := rejected.filter (fun p =>
+      let dep := Coins.amountOf ((pre.g.deposits.filter (·.pid == p.id)).foldl (fun acc d => Coins.add acc d.amount) ([] : Coins)) "uctk"
+      dep > 0 && (burned == 0 || (rejected.length == 1 && burned != dep)))
+    let allKnown := rejected.all (fun p =>
+      let dep := Coins.amountOf ((pre.g.deposits.filter (·.pid == p.id)).foldl (fun acc d => Coins.add acc d.amount) ([] : Coins)) "uctk"
+      dep > 0 && (burned == 0 || rejected.length == 1))
+    if allKnown then
+      let keys := (restorable.map (fun p => (p.clPool, p.cuProposer, p.clPurchase))).eraseDups
+      for (pool, holder, purchase) in keys do
+        -- the purchase as the shield end-blocker of this block left it
+        if w.sh.lists.any (fun l => l.pool == pool && l.purchaser == holder && l.entries.any (·.id == purchase)) || !shieldOk then
+          let expected := (restorable.filter (fun p => p.clPool == pool && p.cuProposer == holder && p.clPurchase == purchase)).foldl (fun acc p => acc + Coins.amountOf p.clLoss "uctk") (0 : Int)
+          let sh (s : Shield.State) : Option Int := ((Shield.findList s pool holder).bind (fun l => l.entries.find? (·.id == purchase))).map (·.shield)
+          match sh pre.sh, sh ds.shield with
+          | some a, some b =>
+            ds := stat ds "mon.c05.restore"
+            if b - a != expected then
+              ds ← finding ds "monitor" "C05" "shield_restored_to_purchase" s!"claims rejected on purchase {purchase} of {holder}: shield {a}->{b}; losses to restore {expected}"
+          | _, _ => pure ()
+    for x in ShieldD.monCollateralRelease pre.sh ds.shield ds.t paidTotal do ds ← finding ds "monitor" "C07,C04" "released_only_by_queue" x
+    for x in ShieldD.monQueueAfterEnd ds.shield ds.t do ds ← finding ds "monitor" "C07" "matured_withdrawals_complete" x
+    for x in ShieldD.monNewWithdraws pre.sh ds.shield ds.t do ds ← finding ds "monitor" "C07" "full_period_before_release" x
   if ds.hasGov then
     -- gov runs before oracle in the end-blocker order; they share nothing but the ledger
     if pre.g.proposals.any (fun p => p.kind == "claim" && GovD.liveStatus p.status) then
@@ -442,6 +679,9 @@ def handleEnd (ds : DS) (j : Json) : IO DS := do
     | .ok o' => w := { w with o := o' }
     if !(Oracle.closingAt pre.o ds.h).isEmpty then ds := stat ds "sit.c15.tasks_closed_blocks"
   if modelOk then ds ← compareWorld ds "end" w ds.sys.systemAccts
+  else if shieldOk && !ds.shieldOutside then
+    for x in ShieldD.diffFacts' (ShieldD.facts w.sh) (ShieldD.facts ds.shield) do
+      ds ← finding ds "diverge" (ShieldD.propsOfFact x) "state:end" x
   if ds.hasOracle then
     for x in OracleD.monStatusChanges pre.o ds.oracle true ds.h do
       ds ← finding ds "monitor" "C15" "aggregated_once_at_closing" x
